@@ -146,6 +146,10 @@ func (pr *Loader) findTableBuffer(s tableSection, dst []byte) ([]byte, error) {
 			dst = make([]byte, s.length)
 		}
 		dst = dst[0:s.length]
+		if s.length == 0 {
+			// nothing to read: an empty table at the end of the file would otherwise report io.EOF
+			return dst, nil
+		}
 		if _, err := pr.file.ReadAt(dst, int64(s.offset)); err != nil {
 			return nil, err
 		}
